@@ -85,20 +85,29 @@ def apalache_inductive(ev, violations, machinery, pid):
     import tempfile
     from .common import SPEC
     from .evidence import save_replay
-    steps = [("Init", "IndInv", 0), ("IndInit", "IndInv", 1), ("IndInit", "Needed", 0)]
+    # (init, invariant, length, next, expected outcome)
+    steps = [("Init", "IndInv", 0, "Next", True), ("IndInit", "IndInv", 1, "Next", True), ("IndInit", "Needed", 0, "Next", True),
+             # second half of C09 (bounded retention): IndInv2 = IndInv /\ BoundInv is inductive and implies Bound;
+             # a pull that never evicts (negative control) must break the induction step
+             ("Init", "IndInv2", 0, "Next", True), ("IndInit2", "IndInv2", 1, "Next", True),
+             ("IndInit2", "Bound", 0, "Next", True), ("IndInit2", "IndInv2", 1, "NextLazy", False)]
     out = tempfile.mkdtemp(prefix="fv-apa-")
     try:
-        for init, inv, length in steps:
+        for init, inv, length, nxt, expect_ok in steps:
             try:
                 p = subprocess.run(["apalache-mc", "check", f"--init={init}", f"--inv={inv}", f"--length={length}",
-                                    f"--out-dir={out}", "OutBufInd.tla"], cwd=os.path.join(SPEC, "apalache"),
+                                    f"--next={nxt}", f"--out-dir={out}", "OutBufInd.tla"], cwd=os.path.join(SPEC, "apalache"),
                                    stdout=subprocess.PIPE, stderr=subprocess.STDOUT, text=True, timeout=1800, check=False)
             except (OSError, subprocess.TimeoutExpired) as e:
                 machinery.append(f"apalache {init}/{inv}: {e}")
                 continue
             ok = "The outcome is: NoError" in p.stdout
             ev.cov["runs"].append({"kind": "apalache-inductive-step", "module": "apalache/OutBufInd", "init": init,
-                                   "inv": inv, "length": length, "ok": ok})
+                                   "inv": inv, "length": length, "next": nxt, "ok": ok, "expected_ok": expect_ok})
+            if not expect_ok:
+                if "The outcome is: Error" not in p.stdout:
+                    machinery.append(f"apalache negative control {nxt}/{inv} was not refuted")
+                continue
             if "The outcome is: Error" in p.stdout:
                 path = save_replay(pid, {"kind": "apalache-counterexample", "init": init, "inv": inv, "output": p.stdout[-4000:]})
                 violations.append((pid, f"design-level: {inv} not inductive from {init} (Apalache)", path))
